@@ -153,7 +153,45 @@ pub struct File {
     inner: Inner,
 }
 
+/// Look-alike of [`std::fs::Metadata`] with the length only.
+#[derive(Clone, Copy, Debug)]
+pub struct Metadata {
+    len: u64,
+}
+
+impl Metadata {
+    /// See [`std::fs::Metadata::len`].
+    pub fn len(&self) -> u64 {
+        self.len
+    }
+
+    /// Returns `true` if the file is empty.
+    pub fn is_empty(&self) -> bool {
+        self.len == 0
+    }
+}
+
 impl File {
+    /// See [`std::fs::File::open`].
+    pub fn open<P: AsRef<Path>>(path: P) -> io::Result<File> {
+        OpenOptions::new().read(true).open(path)
+    }
+
+    /// See [`std::fs::File::create`].
+    pub fn create<P: AsRef<Path>>(path: P) -> io::Result<File> {
+        OpenOptions::new().write(true).create(true).truncate(true).open(path)
+    }
+
+    /// See [`std::fs::File::options`].
+    pub fn options() -> OpenOptions {
+        OpenOptions::new()
+    }
+
+    /// See [`std::fs::File::metadata`].
+    pub fn metadata(&self) -> io::Result<Metadata> {
+        self.len().map(|len| Metadata { len })
+    }
+
     /// See [`std::fs::File::sync_all`].
     pub fn sync_all(&self) -> io::Result<()> {
         match &self.inner {
